@@ -133,8 +133,9 @@ def coerce_progress_unit(ctx):
     return "ok"
 
 
-@unit("misc.sources", props=["C05", "C12", "C18"],
-      functions=[("stores/_path_source.py", "PathSource.read"), ("stores/_path_source.py", "PathSource.write"), ("stores/_path_source.py", "PathSource.get_modified_time"),
+@unit("misc.sources", props=["C05", "C12", "C18", "C13"],
+      functions=[("stores/_path_source.py", "PathSource.__init__"), ("stores/_literal_source.py", "LiteralSource.__init__"), ("stores/_modified_time_source.py", "ModifiedTimeSource.__init__"),
+                 ("stores/_path_source.py", "PathSource.read"), ("stores/_path_source.py", "PathSource.write"), ("stores/_path_source.py", "PathSource.get_modified_time"),
                  ("stores/_path_source.py", "PathSource._get_modified_time"), ("stores/_literal_source.py", "LiteralSource.read"), ("stores/_literal_source.py", "LiteralSource.write"),
                  ("stores/_literal_source.py", "LiteralSource.get_modified_time"), ("stores/_modified_time_source.py", "ModifiedTimeSource.read"),
                  ("stores/_modified_time_source.py", "ModifiedTimeSource.write"), ("stores/_modified_time_source.py", "ModifiedTimeSource.get_modified_time")],
@@ -142,18 +143,34 @@ def coerce_progress_unit(ctx):
 def sources_unit(ctx):
     from ujvc.units import real_method_fallback
 
-    MT = object()
+    import datetime as _dtm
+    import types as _types
+
+    TS, TS2 = 1700000000.5, 1800000000.25
+    MT = _dtm.datetime.fromtimestamp(TS)
     exists = ctx.choose(2, "file-exists") == 0
     required = ctx.choose(2, "required") == 0
     calls = []
+    now_ts = {"v": TS}
 
     def get_modified_time(path):
         calls.append(path)
         return MT if exists else None
 
+    # the file system as the class may consult it directly (a refactoring may inline the module-level helper): the path exists with modification time
+    # TS, or it does not exist (ENOENT - the one kind of 'nothing stored' the properties speak about; other errors are not specified here)
+    def _stat_ts(path):
+        calls.append(path)
+        if not exists:
+            raise FileNotFoundError(2, "No such file or directory", str(path))
+        return now_ts["v"]
+
+    ghost_os = _types.SimpleNamespace(
+        path=_types.SimpleNamespace(getmtime=_stat_ts, exists=lambda p: exists, isfile=lambda p: exists),
+        stat=lambda p: _types.SimpleNamespace(st_mtime=_stat_ts(p), st_mtime_ns=int(_stat_ts(p) * 1e9)), fspath=lambda p: p if isinstance(p, (str, bytes)) else p.__fspath__())
     # PathSource
     rel = "stores/_path_source.py"
-    env = {"get_modified_time": get_modified_time}
+    env = {"get_modified_time": get_modified_time, "os": ghost_os, "dt": _dtm, "OSError": OSError, "FileNotFoundError": FileNotFoundError}
 
     class PS:
         pass
@@ -166,7 +183,7 @@ def sources_unit(ctx):
     s.path, s.required = "/d/p", required
     kind, val = _catch(ctx, s.get_modified_time)
     if exists:
-        ctx.check("PathSource.get_modified_time:the-file's-modified-time-when-it-exists", bool(kind == "ret" and val is MT and calls == ["/d/p"]))
+        ctx.check("PathSource.get_modified_time:the-file's-modified-time-when-it-exists", bool(kind == "ret" and val == MT and bool(calls) and set(calls) == {"/d/p"}))
     elif required:
         ctx.check("PathSource.get_modified_time:required-and-missing=>OSError", bool(kind == "raise" and isinstance(val, OSError)))
     else:
@@ -176,6 +193,32 @@ def sources_unit(ctx):
               bool((kind == "ret" and val == "/d/p") if (exists or required) else (kind == "raise" and isinstance(val, OSError))))
     kind, val = _catch(ctx, lambda: s.write(1))
     ctx.check("PathSource.write:not-supported", bool(kind == "raise" and isinstance(val, NotImplementedError)))
+    # the file is replaced between two runs that use the same registry (the same PathSource object): every query asks the file system again
+    before = dict(vars(s))
+    MT2 = _dtm.datetime.fromtimestamp(TS2)
+    del calls[:]
+    now_ts["v"] = TS2
+
+    def get_modified_time2(path):
+        calls.append(path)
+        return MT2 if exists else None
+
+    env["get_modified_time"] = get_modified_time2
+    kind, val = _catch(ctx, s.get_modified_time)
+    if exists:
+        ctx.check("PathSource.get_modified_time:asks-the-file-system-on-every-call(a-replaced-file-shows-its-new-time)", bool(kind == "ret" and val == MT2 and bool(calls)), props=["C05"])
+    ctx.check("PathSource:queries-leave-the-source-object-as-it-was(C13:the-registry's-entries-are-not-modified)",
+              bool(set(vars(s)) == set(before) and all(vars(s)[k] is before[k] for k in before)), props=["C13", "C05"], info=str(sorted(set(vars(s)) ^ set(before))))
+    # construction through the real __init__: the path object and the flag are kept as given (str and pathlib alike)
+    import pathlib as _pl
+
+    for path_given in ("/d/q.txt", _pl.PurePosixPath("/d/q.txt")):
+        class PS2:
+            pass
+
+        PS2.__init__ = get(rel, "PathSource.__init__", native_loops="all").compile_into(dict(env))
+        kind, o2 = _catch(ctx, lambda: PS2(path_given, required=required))
+        ctx.check("PathSource.__init__:keeps-the-very-path-and-the-flag", bool(kind == "ret" and getattr(o2, "path", None) is path_given and getattr(o2, "required", None) is required))
     # LiteralSource / ModifiedTimeSource
     for rel, cname, fields in (("stores/_literal_source.py", "LiteralSource", ("value", "modified_time")), ("stores/_modified_time_source.py", "ModifiedTimeSource", ("modified_time",))):
         class S:
@@ -184,7 +227,10 @@ def sources_unit(ctx):
         for m in ("read", "write", "get_modified_time"):
             setattr(S, m, get(rel, f"{cname}.{m}", native_loops="all").compile_into({}))
         o = S()
-        V, T = object(), object()
+        import datetime as _dt0
+
+        # the time is a real aware datetime (code that looks at tzinfo / utcoffset must find one), the value an opaque object
+        V, T = object(), _dt0.datetime(2021, 6, 1, 12, 0, tzinfo=_dt0.timezone(_dt0.timedelta(hours=-7)))
         if "value" in fields:
             o.value = V
         o.modified_time = T
@@ -193,6 +239,25 @@ def sources_unit(ctx):
         ctx.check(f"{cname}.read:{'the-value-it-was-given' if 'value' in fields else 'the-modified-time'}", bool(r is (V if "value" in fields else T)))
         kind, val = _catch(ctx, lambda: o.write(1))
         ctx.check(f"{cname}.write:not-supported", bool(kind == "raise" and isinstance(val, NotImplementedError)))
+        # through the real constructor, with every form of time a user may give: aware (a zone that is neither UTC nor, in general, the local one),
+        # naive, None.  The source hands out the VERY object it was given - its instant and its naive / aware form are the user's (C18: the stale
+        # check normalises; a second normalisation here would shift the instant by the local offset) - and queries never change the source (C13)
+        import datetime as _dt
+
+        S.__init__ = get(rel, f"{cname}.__init__", native_loops="all").compile_into({"dt": _dt, "isinstance": isinstance, "TypeError": TypeError})
+        aware = _dt.datetime(2024, 3, 10, 1, 30, tzinfo=_dt.timezone(_dt.timedelta(hours=5, minutes=30)))
+        for t_given in (aware, _dt.datetime(2024, 11, 3, 1, 30, fold=1), None):
+            kind, o = _catch(ctx, (lambda: S(V, t_given)) if "value" in fields else (lambda: S(t_given)))
+            if kind != "ret":
+                ctx.check(f"{cname}.__init__:accepts-aware-naive-and-None", False, info=repr(o))
+                continue
+            snap = {k_: getattr(o, k_) for k_ in fields}
+            got = [o.get_modified_time(), o.read(), o.get_modified_time(), o.read()]
+            want_read = V if "value" in fields else t_given
+            ctx.check(f"{cname}:constructed-source-hands-out-the-very-time-it-was-given(aware/naive/None;every-call)",
+                      bool(got[0] is t_given and got[2] is t_given and got[1] is want_read and got[3] is want_read), props=["C05", "C18", "C12"], info=repr(got))
+            ctx.check(f"{cname}:queries-leave-the-source-object-as-it-was(C13)", bool(all(getattr(o, k_) is snap[k_] for k_ in fields) and set(vars(o)) <= set(fields)),
+                      props=["C13", "C05"], info=repr(vars(o)))
     return "ok"
 
 
@@ -374,3 +439,105 @@ def progress_factories_unit(ctx):
     p = Progress(lambda: calls.append(1) or ("fresh", len(calls)))
     ctx.check("Progress.observer:calls-the-factory-on-every-call", bool(p.observer() == ("fresh", 1) and p.observer() == ("fresh", 2)))
     return "ok"
+
+
+@unit("misc.fully_qualified_name", props=["C15", "C19"], functions=[("_util/__init__.py", "fully_qualified_name")],
+      assumptions=["id(x) is unique only among objects alive at the same time: a later object may get the id of a dead one (CPython reuses addresses) - modelled by an id() that "
+                   "answers the same number for objects whose lifetimes do not overlap", "functools.lru_cache (dropped by the extraction) keeps its keys alive and compares them by "
+                   "equality / hash, so it cannot confuse two live callables that are not equal"],
+      min_obligations=4, kind="concrete-parametric")
+def fqn_unit(ctx):
+    """The name under which a callable is reported (progress scopes 'user scope plus function name', C15; stale scopes; error texts) depends on the callable
+    GIVEN and on nothing else: not on which callables were named before, not on an address that an earlier, dead callable happened to have."""
+    from ujvc.units import base_env
+
+    rel = "_util/__init__.py"
+
+    def fresh():
+        env = base_env(rel)
+        for k_, v_ in list(env.items()):            # module-level caches start empty in every environment (the sidecar compares with a fresh start)
+            if isinstance(v_, (dict, list, set)):
+                env[k_] = type(v_)()
+        env["id"] = lambda o: 0x7f00deadbeef        # lifetimes below never overlap
+        return get(rel, "fully_qualified_name").compile_into(env)
+
+    def mk(kind, name):
+        if kind == "function":
+            def g():
+                pass
+            g.__qualname__, g.__name__, g.__module__ = name, name.rsplit(".", 1)[-1], "pkg.mod"
+            return g
+        if kind == "bound-method":
+            cls = type(name.split(".")[0], (), {"__module__": "pkg.mod"})
+
+            def meth(self):
+                pass
+            meth.__qualname__ = name
+            setattr(cls, name.rsplit(".", 1)[-1], meth)
+            return getattr(cls(), name.rsplit(".", 1)[-1])
+        cls = type(name, (), {"__module__": "pkg.mod", "__call__": lambda self: None})      # a callable object: named after its class
+        return cls()
+
+    kind = ("function", "bound-method", "callable-object")[ctx.choose(3, "callable-kind")]
+    f = fresh()
+    seen = []
+    for name in ("Pipeline.extract", "Pipeline.transform", "Pipeline.load"):
+        obj = mk(kind, name)
+        got = f(obj)
+        alone = fresh()(obj)                    # the same function text, started afresh, asked about this one callable only
+        seen.append((name, got, alone))
+        del obj                                  # dead before the next one is created: the next may get its id
+    ctx.check("name-depends-only-on-the-callable-given(not-on-what-was-named-before,not-on-a-reused-id)", bool(all(g_ == a_ for _, g_, a_ in seen)), info=repr(seen))
+    ctx.check("different-callables-of-one-kind-get-their-own-names", bool(len({g_ for _, g_, _ in seen}) == 3), info=repr(seen))
+    ctx.check("the-name-ends-with-the-callable's-own-qualified-name", bool(all(isinstance(g_, str) and g_.endswith(n_) for n_, g_, _ in seen)), info=repr(seen))
+    again = mk(kind, "Pipeline.extract")
+    ctx.check("asking-twice-about-one-live-callable-gives-the-same-name", bool(f(again) == f(again)))
+    return "ok"
+
+
+# ---------------------------------------------------------------------------------------
+# native replay for the source stores: the real classes on real files / real datetimes
+# ---------------------------------------------------------------------------------------
+SOURCES_SCRIPT = '''
+import datetime as dt, os, sys, tempfile, time, pathlib
+from uberjob.stores import PathSource, LiteralSource, ModifiedTimeSource
+bad = []
+aware = dt.datetime(2024, 3, 10, 1, 30, tzinfo=dt.timezone(dt.timedelta(hours=5, minutes=30)))
+for tz in ("UTC", "EST5", "JST-9"):
+    os.environ["TZ"] = tz; time.tzset()
+    for t in (aware, dt.datetime(2024, 11, 3, 1, 30, fold=1), None):
+        for mk, name in ((lambda: ModifiedTimeSource(t), "ModifiedTimeSource"), (lambda: LiteralSource("v", t), "LiteralSource")):
+            s = mk(); r0 = repr(s)
+            got = [s.get_modified_time(), s.read(), s.get_modified_time(), s.read()]
+            want = [t, t if name == "ModifiedTimeSource" else "v"] * 2
+            if any(a is not b for a, b in zip(got, want)) or repr(s) != r0:
+                bad.append((tz, name, repr(t), "handed out %r; repr before/after %s / %s" % (got, r0, repr(s))))
+with tempfile.TemporaryDirectory() as d:
+    for mkp in (str, pathlib.Path):
+        p = os.path.join(d, "src.txt"); open(p, "w").write("1")
+        s = PathSource(mkp(p)); os.utime(p, (1000000000, 1000000000)); m1 = s.get_modified_time(); s.read()
+        os.utime(p, (1500000000, 1500000000)); m2 = s.get_modified_time()
+        if m1 is None or m2 is None or not m2 > m1: bad.append(("PathSource", mkp.__name__, "file replaced between two queries", "%r then %r" % (m1, m2)))
+        plain = os.path.join(d, "plainfile"); open(plain, "w").write("x")
+        for missing in (os.path.join(d, "nothing-here"),):     # other errors than 'does not exist' (a parent that is a regular file, no permission) are not specified by the properties
+            try: r = PathSource(mkp(missing), required=False).get_modified_time()
+            except Exception as e: r = e
+            if r is not None: bad.append(("PathSource", mkp.__name__, "optional source, nothing stored at %s" % os.path.basename(missing), repr(r)))
+            try: PathSource(mkp(missing), required=True).get_modified_time(); bad.append(("PathSource", mkp.__name__, "required and missing", "no error"))
+            except OSError: pass
+for b in bad[:6]: print("source store misbehaves:", b)
+sys.exit(1 if bad else 0)
+'''
+
+
+def _replay_sources(ob):
+    import os
+
+    from ujvc.units import run_native_p
+    from ujvc.z3env import REPO_SRC
+
+    p = run_native_p(["/venv/bin/python", "-c", SOURCES_SCRIPT], env=dict(os.environ, PYTHONPATH=REPO_SRC), timeout=120)
+    return {"reproduced": p.returncode == 1, "detail": (p.stdout + p.stderr)[-2500:], "script": SOURCES_SCRIPT}
+
+
+REPLAYS = [("misc.sources*", _replay_sources)]
